@@ -28,9 +28,9 @@ type Call struct {
 	// call was processed, i.e. after the echo of the trailing return(s): nothing follows the reply.
 	AfterWrites int    `json:"after_writes,omitempty"`
 	Nonce       string `json:"nonce"`
-	Shape   int    `json:"shape"` // reply element spelling, see buildPayload
-	Body    string `json:"body"`  // ok | data | error
-	Fill    string `json:"fill,omitempty"`
+	Shape       int    `json:"shape"` // reply element spelling, see buildPayload
+	Body        string `json:"body"`  // ok | data | error
+	Fill        string `json:"fill,omitempty"`
 	// Decoy: the filler quotes a message-id="N" attribute as text (N a past id, the next id, a far id)
 	Decoy string `json:"decoy,omitempty"`
 	// big fillers are given by length and seed instead of verbatim
@@ -44,14 +44,14 @@ type Call struct {
 
 // Session is the case descriptor.
 type Session struct {
-	Profile string     `json:"profile"`
-	Version string     `json:"version"`
-	Echo    bool       `json:"echo"`
+	Profile string `json:"profile"`
+	Version string `json:"version"`
+	Echo    bool   `json:"echo"`
 	// NoEchoMark: no message mark after an echoed request: one read may carry the tail of the echo
 	// together with (part of) the reply that follows. The echo is not a server message.
-	NoEchoMark bool `json:"no_echo_mark,omitempty"`
-	Seg     devsim.Seg `json:"seg"`
-	Calls   []Call     `json:"calls"`
+	NoEchoMark bool       `json:"no_echo_mark,omitempty"`
+	Seg        devsim.Seg `json:"seg"`
+	Calls      []Call     `json:"calls"`
 }
 
 const (
